@@ -40,6 +40,16 @@ def _lb(b, blk, x, depth=0):
     if x[0] == 'call' and x[1].endswith('::max') and len(x[2]) == 2 and depth < 4:
         best = max(best, _lb(b, blk, x[2][0], depth + 1), _lb(b, blk, x[2][1], depth + 1))
     nx = nosite(x)
+    # an integer `match x { 0 => .., _ => <here> }`: the guard excludes 0 (or selects values >= 1)
+    for g in guards_at(b, blk):
+        if g.dty != 'bool' and g.t[0] != 'discr' and nosite(core(g.t)) == nx:
+            if g.excluded is not None and 0 in g.excluded:
+                k = 1
+                while k in g.excluded:
+                    k += 1
+                best = max(best, k)
+            elif g.values:
+                best = max(best, min(g.values))
     for op, l, r in cmp_facts_at(b, blk):
         cl, cr = nosite(core(l)), nosite(core(r))
         for o, p, q in ((op, cl, cr), ({'Lt': 'Gt', 'Gt': 'Lt', 'Le': 'Ge', 'Ge': 'Le', 'Eq': 'Eq', 'Ne': 'Ne'}[op], cr, cl)):
